@@ -17,10 +17,10 @@ pub fn generate(property: &str, seed: u64, tier: Tier) -> Case {
     }
 }
 
-pub fn evaluate(case: &Case, results: &[Vec<RunResult>], _report: &mut CaseReport) -> Verdict {
+pub fn evaluate(case: &Case, results: &[Vec<RunResult>], report: &mut CaseReport) -> Verdict {
     match case.property.as_str() {
         "C09" => c09::evaluate(case, results),
-        "C10" => c10::evaluate(case, results),
+        "C10" => c10::evaluate(case, results, report),
         other => panic!("unknown property {other}"),
     }
 }
@@ -28,8 +28,12 @@ pub fn evaluate(case: &Case, results: &[Vec<RunResult>], _report: &mut CaseRepor
 /// Number of cases per tier.
 pub fn budget(property: &str, tier: Tier) -> u64 {
     match (property, tier) {
-        (_, Tier::Quick) => 20_000,
-        (_, Tier::Thorough) => 400_000,
+        ("C09", Tier::Quick) => 12_000,
+        ("C09", Tier::Thorough) => 400_000,
+        ("C10", Tier::Quick) => 30_000,
+        ("C10", Tier::Thorough) => 1_500_000,
+        (_, Tier::Quick) => 10_000,
+        (_, Tier::Thorough) => 300_000,
     }
 }
 
